@@ -385,6 +385,14 @@ impl Refint {
 
     /// the flow goes from an instruction in `from` (knot, stitch) to the start of a knot or stitch
     fn enter(&mut self, from: &(String, String), target: &str) -> E<usize> {
+        // a bare name may be a stitch of the knot the flow is in
+        let qualified;
+        let target = if !self.ir.entries.contains_key(target) && self.ir.entries.contains_key(&format!("{}.{}", from.0, target)) {
+            qualified = format!("{}.{}", from.0, target);
+            qualified.as_str()
+        } else {
+            target
+        };
         let (tk, ts) = match target.split_once('.') {
             Some((k, s)) => (k.to_string(), s.to_string()),
             None => (target.to_string(), String::new()),
